@@ -1,5 +1,5 @@
 (* C15 — the generator accepts every documented argument set and cleanly rejects invalid ones. *)
-From MP Require Import Gen.Args Proofs.ArgsProofs.
+From MP Require Import Gen.Args Gen.ArgsBridge Proofs.ArgsProofs Proofs.PipelineProofs Proofs.ArgsGen.
 Local Open Scope list_scope. Open Scope Z_scope.
 
 (* the code's checks (required / inapplicable tables, defaults, bound checks in the code's order, python's
@@ -10,6 +10,32 @@ Theorem C15_decide : forall a : namespace,
   decide a = if documented_ok a then Accept (with_defaults a) else Reject.
 Proof. exact decide_spec. Qed.
 Print Assumptions C15_decide.
+
+(* "is accepted and produces the instances without error": the generator as a whole (parser, defaults, instance
+   writers; Gen/ArgsBridge.v generator_run) on a documented argument set writes exactly numinst files 0.txt, 1.txt, ...
+   for any draws that honour the random-number contract *)
+Theorem C15_accepted_generates : forall a t1 t2 sk lts ds,
+  documented_ok a = true ->
+  length ds = Z.to_nat (a_numinst a) ->
+  (forall d, In d ds -> draws_contract (gargs_of (with_defaults a) t1 t2 sk lts) d) ->
+  exists files, generator_run a t1 t2 sk lts ds = GFiles files /\
+                length files = Z.to_nat (a_numinst a) /\
+                map fst files = map (fun k => sZ k +++ ".txt"%string) (rangeZ (a_numinst a)).
+Proof. exact accepted_args_generate. Qed.
+Print Assumptions C15_accepted_generates.
+
+(* any other argument set ends in the usage error and nothing is generated *)
+Theorem C15_rejected_writes_nothing : forall a t1 t2 sk lts ds,
+  documented_ok a = false -> generator_run a t1 t2 sk lts ds = GUsage.
+Proof. exact rejected_args_write_nothing. Qed.
+Print Assumptions C15_rejected_writes_nothing.
+
+(* the generator never fails with an exception unless the random draws break their contract *)
+Theorem C15_crash_needs_bad_draws : forall a t1 t2 sk lts ds e,
+  generator_run a t1 t2 sk lts ds = GCrash e -> length ds = Z.to_nat (a_numinst a) ->
+  ~ (forall d, In d ds -> draws_contract (gargs_of (with_defaults a) t1 t2 sk lts) d).
+Proof. exact generator_crash_needs_bad_draws. Qed.
+Print Assumptions C15_crash_needs_bad_draws.
 
 Example C15_example :
   let sm := mkNS 1 SM true None (Some 3) None None (Some 1) (Some 2) None None None None None None None in
